@@ -8,6 +8,7 @@
 (*     L1    := atom | <atom:bounds> | {atom,atom}                         *)
 (*     L2    := L1 | <L1:bounds> | L1 L1 | {L1,L1}                         *)
 (*     case  := L2 tail          tail in {a, *}                            *)
+(*            | <p L1 tail:bounds> | {p L1 tail,L1 tail}    p in {a, a/}   *)
 (* with bounds in { :2  :0,1  :1,2  :2,3  :1,  (none) }.  The product of a *)
 (* range with a repetition (sum of ranges under concatenation, hull under  *)
 (* alternation) is thereby exercised on every pair of shapes, which the    *)
@@ -24,12 +25,19 @@ Alt(x, y) == <<cLC>> \o x \o <<cCOM>> \o y \o <<cRC>>
 L1 == Atoms \cup {Rep(x, b) : x \in Atoms, b \in Bounds} \cup {Alt(x, y) : x \in Atoms, y \in Atoms}
 Tails == {<<cA>>, <<cSTAR>>}
 
+(* terms behind a prefix that is not universal, inside the branch: the analyses discard such a prefix *)
+(* (it bounds neither depth nor exhaustiveness by itself) and must not let what follows it escape    *)
+Prefixes == {<<cA>>, <<cA, cSEP>>}
+L1s == Atoms \cup {Rep(x, b) : x \in {<<cA, cSEP>>, <<cSTAR, cSEP>>, <<cSTAR, cSTAR, cSEP>>}, b \in Bounds}
+
 VARIABLES text
 Init ==
-  \E x \in L1, t \in Tails :
-    \/ text = x \o t
-    \/ \E b \in Bounds : text = Rep(x, b) \o t
-    \/ \E y \in L1 : text = x \o y \o t \/ text = Alt(x, y) \o t
+  \/ \E x \in L1, t \in Tails :
+       \/ text = x \o t
+       \/ \E b \in Bounds : text = Rep(x, b) \o t
+       \/ \E y \in L1 : text = x \o y \o t \/ text = Alt(x, y) \o t
+       \/ \E p \in Prefixes, b \in Bounds : text = Rep(p \o x \o t, b)                       \* <a/ L1 tail : bounds>
+  \/ \E x \in L1s, y \in L1s, t \in Tails, p \in Prefixes \cup {<<>>} : text = Alt(p \o x \o t, y \o t)   \* {prefix L1 tail, L1 tail}
 Next == UNCHANGED text
 Emit == PrintT(ToJson([t |-> "CASE", fam |-> "alg", e |-> text]))
 =============================================================================
